@@ -13,6 +13,7 @@ loop or the two passes: the meaning of the events is defined declaratively below
      front of that offset was generated (bytes generated under no line are skipped)
  J3  the tables of a program do not change when it is loaded again from its saved binary
  J4  no crash
+ J5  an opened file never gets a file id that a file_info segment written before already uses
 -/
 import NV.C18.Model
 
@@ -194,11 +195,21 @@ def judgeEhs : List Expect → List EhRec → List String
   | e :: es, r :: rs => judgeEh e r ++ judgeEhs es rs
   | es, rs => [s!"eh-count missing={es.length} extra={rs.length}"]
 
-/-! ## J2, J3, J4 over the observation list -/
+/-- J5: a file that is opened gets a file id that no `file_info` segment written so far uses (this is the
+    freshness condition `Fresh` of the round-trip theorem, checked on every real compilation) -/
+def reusedIds (evs : List CEv) : List Nat :=
+  (evs.foldl (fun (acc : List Nat × List Nat) e =>
+    match e with
+    | .fi f _ => (f.toNat :: acc.1, acc.2)
+    | .addFile f _ => if acc.1.contains f then (acc.1, f :: acc.2) else acc
+    | _ => acc) ([], [])).2.reverse
+
+/-! ## J2, J3, J4, J5 over the observation list -/
 
 def judgeObs : List Obs → List (String × List CEv) → List (String × String) → List String
   | [], _, _ => []
-  | .ev p evs :: rest, known, tabs => judgeObs rest ((p, evs) :: known) tabs
+  | .ev p evs :: rest, known, tabs =>
+    ((reusedIds evs).take 1).map (fun f => s!"file-id-reused prog={p} id={f}") ++ judgeObs rest ((p, evs) :: known) tabs
   | .dec p runs :: rest, known, tabs =>
     (match known.find? (fun e => e.1 == p) with
      | some e => judgeDec p e.2 runs
